@@ -262,7 +262,7 @@ def _job(args) -> Tuple[str, List[Tuple[str, str, str]], int]:
                 params = [a.arg for a in repo.mod(file).func(fn).args.args]
                 if params[:2] == ["height", "width"] and len(args_) >= 2:
                     # the board's dimensions carry a row/column qualifier through the evaluation (kind analysis)
-                    args_ = (KInt(args_[0], "R"), KInt(args_[1], "C")) + tuple(args_[2:])
+                    args_ = (KInt(args_[0], "R", "ext"), KInt(args_[1], "C", "ext")) + tuple(args_[2:])
                 label = f"{h}x{wd} board"
                 try:
                     w.cw.ev.steps = 0
@@ -277,6 +277,10 @@ def _job(args) -> Tuple[str, List[Tuple[str, str, str]], int]:
                     out.append(("IDX-1", f"{text}", f"{fn} on a {label}: `{text}` is evaluated with the computed index `{comp}` = {val}: "
                                                      f"a negative index silently addresses the opposite edge (line {line})"))
                 for text, comp, k, axis, line in w.cw.ev.kind_events[:3]:
+                    if str(axis).startswith("cmp:"):
+                        out.append(("DK", f"{text}", f"{fn} on a {label}: `{text}` bounds the {'column' if k == 'C' else 'row'} position `{comp}` by the board's "
+                                                      f"{'width' if axis[4:] == 'C' else 'height'} (line {line}): on a non-square board the test admits or excludes the wrong cells"))
+                        continue
                     out.append(("DK", f"{text}", f"{fn} on a {label}: `{text}` uses the {'width' if k == 'C' else 'height'}-derived value `{comp}` on the "
                                                   f"{'row' if axis == 'R' else 'column'} axis (line {line}): on a non-square board it addresses or bounds the wrong cells"))
                 for msg in w.shape_events[:2]:
